@@ -53,14 +53,19 @@ def run_search(repo: Repo, res: Result) -> None:
         # orientation of the hierarchy test
         for hc in m.hier_calls:
             a = _hier_args(repo, hc)
-            nv = next((i.var for i in m.neighbour_iters if (S._inside_body(hc, i.node) if i.gen is None else S._inside_gen(hc, i.node, i.gen))), m.neighbour_var)
-            want = [m.popped, nv] if m.direction == "succ" else [nv, m.popped]
+            if len(a) != 2 or m.popped not in a:
+                continue  # not a test on an edge of the current node; whether events are classified is decided on their guards
+            # the current node is the parent side for a successor expansion, the child side for a predecessor expansion; the other
+            # side is the neighbour under whatever name the enclosing loop / comprehension / lambda binds it
+            pos = 0 if m.direction == "succ" else 1
+            ok = a[pos] == m.popped and a[1 - pos] != m.popped
+            want = f"({m.popped}, <neighbour>)" if m.direction == "succ" else f"(<neighbour>, {m.popped})"
             n += 1
             res.add(
                 "C01.S",
                 repo.key(fi, stmt_of(hc)) + " [hierarchy test orientation]",
-                a == want,
-                f"parent_child_relationship({', '.join(a)})" + ("" if a == want else f": expected ({', '.join(want)}) for a {'successor' if m.direction == 'succ' else 'predecessor'} expansion"),
+                ok,
+                f"parent_child_relationship({', '.join(a)})" + ("" if ok else f": expected {want} for a {'successor' if m.direction == 'succ' else 'predecessor'} expansion"),
                 where(fi, hc),
                 kind="structural",
             )
@@ -185,7 +190,9 @@ def run_search(repo: Repo, res: Result) -> None:
                     where(fi, st.call),
                     kind="dominance",
                 )
-    res.floor("C01.S", 15, n)
+    # vacuity is excluded per search by the role requirements above (models() demands all four searches, every explicit / other
+    # search must record inside its neighbour iteration, explicit / sub-module searches must push); the floor is a backstop
+    res.floor("C01.S", 12, n)
 
 
 def run_lookup(repo: Repo, res: Result, rule_id: str = "C13.R6") -> int:
